@@ -93,6 +93,13 @@ def _build():
                                                    Item('sum([a1, a2, 1])', lambda e: e.a(1) + e.a(2) + 1)]), ['ii', 'ii'], quick=True)
     _add('builtin[max-key,where]', Q(items=[Item('max([a1, a2], key=lambda v: -v)', lambda e: max([e.a(1), e.a(2)], key=lambda v: -v)), NR], where=('min(a1, a2) >= 0', lambda e: min(e.a(1), e.a(2)) >= 0)), ['ii', 'ii'])
     _add('builtin[with-agg]', Q(items=[Item('max(a1, a1)', lambda e: max(e.a(1), e.a(1))), agg('SUM', 'a2', A2, 'sum')], group=G1), ['ii', 'ii', 'ii'], quick=True)
+    # K: group keys enumerated by the solver over a small domain and made concrete per path (digit-length / sign boundaries, where an engine
+    #    model of str()/repr() of keys would be imprecise): key order must be the numeric order
+    ED = (-10, -1, 0, 2, 9, 10, 100)
+    _add('enum[grp1,sum]', Q(items=[fa(1), agg('SUM', 'a2', A2)], group=G1), ['ei', 'ei', 'ei'], quick=True, edomain=ED)
+    _add('enum[grp1,top2]', Q(items=[fa(1), Item('COUNT(*)', lambda e: 1, kind='agg', agg='COUNT')], group=G1, top=2), ['ei', 'ei', 'ei'], quick=True, edomain=ED)
+    _add('enum[grp2]', Q(items=[fa(3), fa(1), agg('MAX', 'a2', A2)], group=G13), ['eie', 'eie'], edomain=ED)
+    _add('enum[strkeys]', Q(items=[fa(1), agg('ARRAY_AGG', 'NR', lambda e: e.NR)], group=G1), ['p', 'p', 'p'], quick=True)
     # H: ORDER BY / DISTINCT are rejected in aggregate queries
     _add('reject[orderby]', Q(items=[agg('MAX', 'a2', A2)], order=[('a1', lambda e: e.a(1))]), ['ii', 'ii'], quick=True)
     _add('reject[groupby+orderby]', Q(items=[fa(1), agg('MAX', 'a2', A2)], group=G1, order=[('a1', lambda e: e.a(1))]), ['ii'])
